@@ -280,3 +280,20 @@ Proof.
       destruct (header_get h (bs "Cookie")); discriminate.
   - rewrite IH by discriminate. unfold add_cookie at 1. rewrite header_get_hset. reflexivity.
 Qed.
+
+(* ---------- requests sharing one HTTP/3 connection do not influence each other ---------- *)
+From Coq Require Import Permutation.
+
+Theorem h3w_independent : forall qs, h3w_run [] qs = map h3_lines qs.
+Proof. induction qs as [|q r IH]; [reflexivity|]. cbn [h3w_run h3w_write app map]. rewrite IH. reflexivity. Qed.
+
+Lemma combine_map_self {A B} (f : A -> B) l : combine l (map f l) = map (fun x => (x, f x)) l.
+Proof. induction l as [|x l IH]; [reflexivity|]. cbn. rewrite IH. reflexivity. Qed.
+
+(* in whatever order the critical sections of concurrent requests are serialised, every request is
+   handed the field section of its own description *)
+Theorem h3w_order_irrelevant : forall qs qs', Permutation qs qs' ->
+  Permutation (combine qs (h3w_run [] qs)) (combine qs' (h3w_run [] qs')).
+Proof.
+  intros qs qs' H. rewrite !h3w_independent, !combine_map_self. apply Permutation_map. exact H.
+Qed.
